@@ -203,3 +203,9 @@ META = dict(
                 'independent table; unbounded in the magnitude of the difference',
     required_outcomes=['ret'],
 )
+
+
+def validate(tier):
+    """translator validation: the interpreter in concrete mode against CPython on the functions this check encodes"""
+    from engine import validate as v
+    return v.run(['scores'], tier)
